@@ -41,8 +41,9 @@ Ok(e) ==
       /\ e.decb.ok = 1 /\ e.decb.v = CanonDeep(e.g) /\ e.decb.srid = e.srid     \* one-shot byte decoder
       /\ e.decs.ok = 1 /\ e.decs.v = CanonDeep(e.g) /\ e.decs.srid = e.srid     \* streaming decoder
       /\ \A i \in 1..Len(e.scans) : ScanOk(e, e.scans[i])                        \* scanner x destinations x framings
-      /\ e.val = Enc(e.tab, e.g, TRUE, e.srid)                                  \* driver.Valuer
-      /\ (e.pkg = "ewkb" => e.valp = U32(e.psrid, TRUE) \o Enc(e.tab, e.g, TRUE, 0))
+      /\ e.val = Enc(e.tab, e.g, e.defle = 1, e.srid)                           \* driver.Valuer: the package's default order
+      /\ (e.pkg = "ewkb" => /\ e.valp = U32(e.psrid, TRUE) \o Enc(e.tab, e.g, e.defle = 1, 0)   \* prefix always little endian
+                            /\ e.vpok = 1 /\ e.vpsrid = e.psrid)                 \* and ScannerPrefixSRID reads it back
 Init == l = 1 /\ bad = {}
 Next == /\ l <= Len(Trace) /\ l' = l + 1
         /\ bad' = IF Ok(Trace[l]) THEN bad ELSE bad \cup {l}
